@@ -16,7 +16,7 @@ BUGS = [("Bug_AckBeforeSync.cfg", "AckedRecovered"), ("Bug_DelWALEarly.cfg", Non
         ("Bug_NoSSTSync.cfg", "OpenSucceeds"), ("Bug_NoWALDirSync.cfg", None)]
 
 PROPS = {
-    "C10": dict(runs=[dict(profile="C10", cfgs="crash1,crash2,crashvs,crashold", env={})], checked=["crash10"]),
+    "C10": dict(runs=[dict(profile="C10", cfgs="crash1,crash2,crashvs,crashold", env={}, scripts_mult=2)], checked=["crash10"]),
     "C11": dict(runs=[dict(profile="C11", cfgs="crash1,crash2,crashvs,crashold", env={}),
                       dict(profile="C11F", cfgs="crash2,crash1", env={"VERIF_EVERY": "2"}, finding=True, scripts=2)],
                 checked=["crash11"]),
